@@ -128,7 +128,40 @@ static Verdict run_flood(const Case &c) {
     v.cls(fmt("flood-%s", n >= 65536 ? ">=65536" : n >= 16384 ? ">=16384" : n >= 4096 ? ">=4096" : "<4096"));
     return v;
 }
-static Verdict run(const Case &c) { return c.c(0) == 1 ? run_flood(c) : run_hist(c); }
+// part 2: several interfaces of one host alive at the same time (cfg[8] = how many, 2..8), each with a mapper, observations and a cached icon; frames rotate between them.
+// Retained memory is per interface: one record each, its observations and its icon; after a Reset on every interface exactly one record per interface remains.
+static Verdict run_many_ifs(const Case &c) {
+    Verdict v;
+    HCfg h = HCfg::from_case(c);
+    World w;
+    h.apply_global(w);
+    int n = (int)std::max<int64_t>(2, std::min<int64_t>(c.c(8, 5), 8));
+    std::vector<int> ifi; std::vector<Mac> own;
+    for (int k = 0; k < n; k++) { IfCfg ic = h.ifcfg(); ic.mac = mac_from_u64(h.own + ((uint64_t)k << 16)); own.push_back(ic.mac); ifi.push_back(w.add_if(ic)); }
+    Mac m = h.st_real(0);
+    for (int k = 0; k < n; k++) (void)w.deliver(ifi[(size_t)k], mk_simple(BCAST, m, 0, OP_RESET, BCAST, m, 0));
+    size_t base_blocks = vp_live_blocks(), base_bytes = vp_live_bytes();
+    if (base_blocks != (size_t)n) { v.fail(fmt("%d interfaces have seen one frame each: %zu blocks live, expected one record per interface", n, base_blocks)); return v; }
+    int rounds = (int)std::max<int64_t>(1, std::min<int64_t>(c.c(9, 3), 6));
+    for (int r = 0; r < rounds && v.ok; r++) {
+        for (int k = 0; k < n && v.ok; k++) {
+            int x = (k * 3 + r) % n;   // rotate, not in creation order
+            (void)w.deliver(ifi[(size_t)x], mk_discover(m, m, 0, 1, 1, {}));
+            for (int p = 0; p < 3; p++) (void)w.deliver(ifi[(size_t)x], mk_simple(own[(size_t)x], mac_from_u64(0x0600CC000000ULL + (uint64_t)(r * 10 + p)), 0, OP_PROBE, own[(size_t)x], mac_from_u64(0x0600DD000000ULL + (uint64_t)p), 0));
+            (void)w.deliver(ifi[(size_t)x], mk_qlt(own[(size_t)x], m, own[(size_t)x], m, (uint16_t)(r + 1), 0x0E, 0, 0));
+            size_t bound = (size_t)n * (1 + 3 * (size_t)(r + 1) + 1) + 3;
+            if (vp_live_blocks() > bound) v.fail(fmt("round %d, interface %d of %d: %zu blocks live; per interface one record, its observations and its icon allow %zu", r, x, n, vp_live_blocks(), bound));
+        }
+    }
+    for (int k = 0; k < n && v.ok; k++) (void)w.deliver(ifi[(size_t)k], mk_simple(BCAST, m, 0, OP_RESET, BCAST, m, 0));
+    if (v.ok && (vp_live_blocks() != base_blocks || vp_live_bytes() != base_bytes))
+        v.fail(fmt("%d interfaces, after a Reset on every one of them: %zu blocks / %zu bytes live, expected %zu / %zu (one record per interface)", n, vp_live_blocks(), vp_live_bytes(), base_blocks, base_bytes));
+    if (v.ok && vp_ledger_violations()) v.fail(vp_ledger_last_violation());
+    v.nontrivial = n >= 3;
+    v.cls(fmt("interfaces=%d", n));
+    return v;
+}
+static Verdict run(const Case &c) { return c.c(0) == 1 ? run_flood(c) : c.c(0) == 2 ? run_many_ifs(c) : run_hist(c); }
 
 int main(int argc, char **argv) {
     Args a = parse_args(argc, argv);
@@ -138,7 +171,7 @@ int main(int argc, char **argv) {
     Evidence ev;
     ev.rule = "(1) generated histories with every request type, noise/mutated frames, failing transmits, repeated icon requests, platform icon swaps and Resets at random points, repeated cyclically to 10^3 (quick) / 10^5 (thorough) frames; "
               "after EVERY frame the port's ledger must show <= record + observations-possibly-retained + icon-cache blocks, and after every topology Reset exactly the per-interface record (same byte count as after the first frame). "
-              "(2) floods of n pairwise-distinct Probes/Trains addressed to this station without a Query (and variants where the mapper queries every 1500 probes, i.e. partial drains while the flood refills, where every frame claims the active mapper as its real source, and where one Ethernet source carries all the distinct real sources) (n = 4096, 16384, 65536; thorough 100000, with interleaved Emit/QueryLargeTlv): retained bytes <= 1 MiB + icon and not growing after 16384. "
+              "(3) two to eight interfaces of one host alive at once, frames rotating between them: one record, its observations and its icon per interface, one record per interface after a Reset on each. (2) floods of n pairwise-distinct Probes/Trains addressed to this station without a Query (and variants where the mapper queries every 1500 probes, i.e. partial drains while the flood refills, where every frame claims the active mapper as its real source, and where one Ethernet source carries all the distinct real sources) (n = 4096, 16384, 65536; thorough 100000, with interleaved Emit/QueryLargeTlv): retained bytes <= 1 MiB + icon and not growing after 16384. "
               "non-trivial = history with >= 100 frames containing every request type, or a flood with n >= 4096; distinct = digest of the case";
     bool ok = true;
     // floods (deterministic family)
@@ -153,6 +186,18 @@ int main(int argc, char **argv) {
         ev.note(c.digest(), v.nontrivial && v.ok, [&] { return c.to_text().substr(0, 400); });
         for (auto &x : v.classes) ev.count("c19-flood:" + x);
         if (!v.ok) { write_file(a.failing, "# c19-flood: " + v.why + "\n" + c.to_text()); fprintf(stderr, "FAIL part=c19-flood %s\n", v.why.c_str()); ok = false; }
+    }
+    // several interfaces at once (deterministic family)
+    for (int n = 2; n <= 8 && ok; n++) for (int rounds : {1, 3}) {
+        if (!ok || (size_t)(n * 2 + rounds) % a.nshards != (size_t)a.shard) continue;
+        HCfg h; h.part = 2; h.mtu = n % 2 ? 576 : 1500; h.icon = Bytes(900, 9);
+        Case c; h.to_case(c);
+        c.cfg.push_back(n); c.cfg.push_back(rounds);
+        CurrentScope scope(c);
+        Verdict v = run(c);
+        ev.note(c.digest(), v.nontrivial && v.ok, [&] { return c.to_text().substr(0, 300); });
+        for (auto &x : v.classes) ev.count("c19-many-interfaces:" + x);
+        if (!v.ok) { write_file(a.failing, "# c19-many-interfaces: " + v.why + "\n" + c.to_text()); fprintf(stderr, "FAIL part=c19-many-interfaces %s\n", v.why.c_str()); ok = false; }
     }
     if (ok) {
         HistWeights w;
